@@ -114,6 +114,9 @@ type TS struct {
 	Prec       int
 	OffKnown   bool
 	OffMin     int // minutes east of UTC; 0 when !OffKnown
+	// AnyFrac: the value stands for something that has no precision of its own (a Go time.Time): any
+	// number of fraction digits that carries Nanos exactly denotes it
+	AnyFrac bool `json:"any_frac,omitempty"`
 }
 
 func (t TS) String() string {
@@ -155,7 +158,21 @@ func (t TS) String() string {
 	return b.String()
 }
 
-func (t TS) Equal(o TS) bool { return t == o }
+func (t TS) Equal(o TS) bool {
+	if t.AnyFrac || o.AnyFrac {
+		exact := func(x TS) bool {
+			p := 1
+			for i := x.FracDigits; i < 9; i++ {
+				p *= 10
+			}
+			return x.FracDigits >= 0 && x.FracDigits <= 9 && x.Nanos%p == 0
+		}
+		a, b := t, o
+		a.FracDigits, b.FracDigits, a.AnyFrac, b.AnyFrac = 0, 0, false, false
+		return a == b && exact(t) && exact(o)
+	}
+	return t == o
+}
 
 // Value is one Ion value.
 type Value struct {
